@@ -111,6 +111,7 @@ def check_group(job):
     record = len(job) > 3 and job[3]
     perturb = len(job) > 4 and job[4]      # calls outside the model made before every modelled request (they must not matter)
     obj, seqs, fmt = job[0], job[1], job[2]
+    variant = job[5] if len(job) > 5 else None      # how the files are written (e.g. NetCDF missing values as a _FillValue of the file's own)
     out = {"n": 0, "traces": 0, "divs": [], "recorded": []}
     tracefile = None
     if record:
@@ -127,7 +128,7 @@ def check_group(job):
 
     try:
         with quiet():
-            inputs, clim = dsreplay.load(obj, fmt)
+            inputs, clim = dsreplay.load(obj, fmt, variant)
     except BaseException as e:
         div(exc_site(e) if isinstance(e, Exception) else "load:error-exit", "loading: %r" % (e,), None, 0)
         return out
